@@ -49,6 +49,10 @@ KvClauses(e) ==
           LET r == IF e.name = "__or__" THEN UnionKV(pre, arg) ELSE InterKV(pre, arg) IN
           Fails({<<"binary_result", (ok /\ (e.name = "__or__" \/ Deg(pre) = Deg(arg))) => (r.ok /\ V(e.ret) = r.kv)>>,
                  <<"different_intervals_refused", Limits(pre) # Limits(arg) => ~ok>>})
+     [] e.op = "ibinary" /\ e.argok /\ IsKnotVector(arg) ->
+          LET r == IF e.name = "__ior__" THEN UnionKV(pre, arg) ELSE InterKV(pre, arg) IN
+          Fails({<<"inplace_binary_result", (ok /\ (e.name = "__ior__" \/ Deg(pre) = Deg(arg))) => (r.ok /\ post = r.kv)>>,
+                 <<"different_intervals_refused", Limits(pre) # Limits(arg) => ~ok>>})
      [] e.op = "split" /\ e.argok ->
           Fails({<<"split_pieces", (ok /\ \A i \in DOMAIN arg : Valid(pre, arg[i])) =>
                      [i \in DOMAIN e.pieces |-> V(e.pieces[i])] = (IF arg = <<>> THEN <<pre>> ELSE SplitKV(pre, arg))>>})
